@@ -499,6 +499,9 @@ enum Op {
     /// Node::get_heartbeat (prunes payment records that carry nothing)
     Heartbeat,
     Restart,
+    /// the node force-closes channel i: the signer signs the current holder commitment; the HTLCs
+    /// of that commitment stay in flight (they are resolved on-chain later)
+    ForceClose(usize),
 }
 
 fn run_case(case: usize, nch: usize, script: Option<Vec<Op>>, rng: &mut Rng, len: usize) -> serde_json::Value {
@@ -518,6 +521,7 @@ fn run_case(case: usize, nch: usize, script: Option<Vec<Op>>, rng: &mut Rng, len
     let mut aborted = false;
     let n_steps = script.as_ref().map(|s| s.len()).unwrap_or(len);
     let mut retry_revoke: Option<usize> = None;
+    let mut closed: Option<usize> = None;
     // the same history as a case of Model/JointCheck.v: explicit numbers, points and content
     // identities, the counterparty revocations the harness slips in, the reply and after every
     // request the ledger and the enforcement state (memory and store) of every channel
@@ -582,9 +586,17 @@ fn run_case(case: usize, nch: usize, script: Option<Vec<Op>>, rng: &mut Rng, len
                             Op::Validate(i, sys.chans[i].ccur.clone())
                         }
                     }
+                    19 if nch >= 2 && closed.is_none() && rng.chance(1, 3) => Op::ForceClose(i),
                     _ => Op::Restart,
                 }
             }
+        };
+        // a closed channel takes no further holder-side updates: those requests go to a neighbour
+        let op = match (&op, closed) {
+            (Op::Validate(i, c), Some(x)) if *i == x => Op::Validate((x + 1) % nch, c.clone()),
+            (Op::ValidateOff(i, _, _), Some(x)) if *i == x => Op::Revoke((x + 1) % nch),
+            (Op::Revoke(i), Some(x)) if *i == x => Op::Revoke((x + 1) % nch),
+            _ => op,
         };
         if let Op::SignCp(i, _) = &op {
             // not part of the request under observation: let the counterparty revoke first
@@ -615,6 +627,12 @@ fn run_case(case: usize, nch: usize, script: Option<Vec<Op>>, rng: &mut Rng, len
             Op::Heartbeat => ("JHeartbeat".to_string(), 0, 0, 0),
             Op::Restart => ("JRestart".to_string(), 0, 0, 0),
             Op::Invoice(_, _) => (String::new(), 3, 0, 0),
+            Op::ForceClose(i) => {
+                let e = sys.estate(*i);
+                let n = e.next_holder_commit_num.saturating_sub(1);
+                let cid = e.current_holder_commit_info.as_ref().map(|x| cids.of(&Content::of_info(x, true))).unwrap_or(9999);
+                (format!("JSignHolder {} {}", i, n), 4, n, cid)
+            }
         };
         let before: Vec<(u64, u64)> = HASHES.iter().map(|h| sys.flight(*h)).collect();
         let before_fp = fingerprint_full(&sys.node);
@@ -715,6 +733,13 @@ fn run_case(case: usize, nch: usize, script: Option<Vec<Op>>, rng: &mut Rng, len
                     sys.restart();
                     ("PRestart".to_string(), json!("restart"), true, false)
                 }
+                Op::ForceClose(i) => {
+                    let n = sys.estate(*i).next_holder_commit_num.saturating_sub(1);
+                    let id = sys.chans[*i].id.clone();
+                    let r = sys.node.with_channel(&id, |ch| ch.sign_holder_commitment_tx_phase2(n)).is_ok();
+                    // nothing the payments model tracks moves: not a step of the pay_case
+                    (String::new(), json!(["force_close", i, n]), r, false)
+                }
             }));
             match r {
                 Ok(x) => x,
@@ -795,6 +820,7 @@ fn run_case(case: usize, nch: usize, script: Option<Vec<Op>>, rng: &mut Rng, len
             } else {
                 match kind {
                     1 => format!("mkO Ok None None None (Some ({}, {}, {}))", a, a, b),
+                    4 => format!("mkO Ok None None (Some ({}, {})) None", a, b),
                     2 => {
                         let o = |x: Option<u64>| x.map(|v| format!("(Some {})", v)).unwrap_or("None".into());
                         let (p, sct) = sys.chans[a as usize].last_revoke_reply;
@@ -806,8 +832,14 @@ fn run_case(case: usize, nch: usize, script: Option<Vec<Op>>, rng: &mut Rng, len
             jt_ops.push(jop);
             jt_obs.push(format!("({}, {}, {})", outp, sys.observe(), sys.chans_coq(&mut cids)));
         }
-        ops.push(coq);
-        obs.push(format!("({}, {})", coq_bool(ok), sys.observe()));
+        if let Op::ForceClose(i) = &op {
+            if ok {
+                closed = Some(*i);
+            }
+        } else {
+            ops.push(coq);
+            obs.push(format!("({}, {})", coq_bool(ok), sys.observe()));
+        }
         jops.push(json!({"op": j, "ok": ok}));
     }
     if !aborted {
@@ -872,6 +904,10 @@ fn run(args: &Args) {
         // revocation is refused at its payment re-check, asked again, and again after a restart
         (2, vec![Op::Invoice(1, 100_000_000), Op::Validate(0, one(1, 100_000, true)),
                  Op::SignCp(1, one(1, 100_000, true)), Op::Revoke(0), Op::Revoke(0), Op::Restart, Op::Revoke(0)]),
+        // a part in flight on a channel that is then force-closed, a restart, further parts on another channel
+        (2, vec![Op::Invoice(1, 100_000_000), Op::SignCp(0, one(1, 60_000, true)), Op::ForceClose(0), Op::Restart,
+                 Op::SignCp(1, one(1, 100_000, true)), Op::SignCp(1, one(1, 40_000, true)), Op::Restart,
+                 Op::SignCp(1, one(1, 40_223, true))]),
         (3, vec![Op::Invoice(2, 50_000_000), Op::Validate(2, one(2, 50_000, true)),
                  Op::SignCp(0, one(2, 50_000, true)), Op::Revoke(2), Op::Revoke(2), Op::Validate(2, Content::default()),
                  Op::Revoke(2)]),
